@@ -102,6 +102,7 @@ class Env:
         self.scratch = scratch
         self.scale = scale
         self.deadline = None
+        self.t0 = None
         self.replaying = False
         self.state = {}
 
@@ -276,6 +277,21 @@ def _limit_memory(nbytes):
         pass
 
 
+def over_budget(env) -> bool:
+    """The budget is meant as work on an otherwise idle machine.  When other jobs compete for the cores (1-minute load average
+    above the core count) the wall-clock allowance stretches with the load, up to 3x, so that a busy machine does not silently
+    cut the enumerated slices; whatever is cut is still counted as budget_skipped."""
+    now = time.time()
+    if now <= env.deadline:
+        return False
+    try:
+        load = os.getloadavg()[0] / (os.cpu_count() or 1)
+    except OSError:
+        load = 1.0
+    t0 = getattr(env, "t0", None) or now
+    return now > t0 + (env.deadline - t0) * min(3.0, max(1.0, load))
+
+
 def _shard_entry(modname, env: Env, conn, budget):
     res = ShardResult()
     t0 = time.time()
@@ -286,11 +302,12 @@ def _shard_entry(modname, env: Env, conn, budget):
         os.makedirs(env.scratch, exist_ok=True)
         os.chdir(env.scratch)
         env.deadline = t0 + budget
+        env.t0 = t0
         check.setup(env)
         ex = Executor(check, env)
 
         def handle(case, out=None):
-            if time.time() > env.deadline:
+            if over_budget(env):
                 res.budget_skipped += 1
                 return None
             if out is None:
@@ -306,7 +323,7 @@ def _shard_entry(modname, env: Env, conn, budget):
                     res.extra["replayed"] = res.extra.get("replayed", 0) + 1
             for case in check.enumerated(env):
                 handle(case)
-                if time.time() > env.deadline:
+                if over_budget(env):
                     res.budget_skipped += 1
                     break
             strat = check.strategy(env)
@@ -520,7 +537,7 @@ def main(prop, tier, replay, nshards, scale):
             cc.close()
             procs.append((p, pc))
         results = []
-        hard_deadline = time.time() + budget * 2.0 + 600
+        hard_deadline = time.time() + budget * 3.0 + 600
         for p, pc in procs:
             remaining = max(1.0, hard_deadline - time.time())
             if pc.poll(remaining):
